@@ -536,11 +536,11 @@ def run_traces(ctx, bcfg):
             why = " components (cf_trace, names distinct, literals consistent, names) = " + (vals[0][:600] if okc and vals else raw[-300:])
         except Exception as e:  # noqa: BLE001
             why = f" ({e})"
-        ctx.tie_broken("correspondence", "modelC:hypotheses", why + f" trace {t} ({mode}): cf_hypsb (hypotheses of C18_build_computes_trace_cf_checked) is false on a trace "
+        ctx.tie_broken("correspondence", "modelC:hypotheses", why + f" trace {t} ({mode}): cf_hyps_eqb (hypotheses of C18_build_computes_trace_cf_eq_checked) is false on a trace "
                        "without Scan whose real graph has pairwise distinct names")
     ctx.obligation("correspondence C: TraceCF.creplay (toy kernels over Z) = the harness's own reading of every trace, and = eval_graph on the graph the real "
                    "GraphBuilder built", not toy_bad, f"{len(toy_bad)} disagreements")
-    ctx.obligation("hypotheses of C18_build_computes_trace_cf_checked (cf_hypsb) hold on every call-mode trace without Scan", not hyp_bad)
+    ctx.obligation("hypotheses of C18_build_computes_trace_cf_eq_checked (cf_hyps_eqb) hold on every call-mode trace without Scan", not hyp_bad)
     for (t, mode, why) in fix_bad[:5]:
         ctx.tie_broken("correspondence", "modelB:user-names", f"trace {t} ({mode}): {why}")
     ctx.obligation("hypotheses of C18_names_unique_across_subgraphs_fixed (user_okb: the caller's names, read off the trace alone) hold on every generated "
